@@ -99,7 +99,8 @@ Qed.
 Lemma header_refused secret hdr w toks :
   init_stream hdr = None ->
   let r := connect_from_wire secret hdr w toks in
-  r_err r = ErrConn true /\ r_state r = PermanentErrorState /\ r_recv r = false /\ r_written r = [].
+  r_err r = ErrConn false /\ r_state r = PermanentErrorState /\ r_recv r = false /\ r_written r = [] /\
+  r_open r = false.
 Proof.
   intros H. cbv zeta. unfold connect_from_wire, pre_of_header. rewrite H. cbn. repeat split.
 Qed.
@@ -249,7 +250,7 @@ Proof.
 Qed.
 
 Lemma reply_of_handshake p : reply_of p = RHandshake <-> p = PHandshake.
-Proof. destruct p; cbn; split; intros H; try discriminate; reflexivity. Qed.
+Proof. destruct p as [| | | | | | | | | | | | | | |e]; try destruct e; cbn; split; intros H; try discriminate; reflexivity. Qed.
 
 (* the reply counts as a handshake exactly when the next start element NextXmppToken finds
    is <handshake> in jabber:component:accept and that element is complete (whatever its
@@ -293,7 +294,7 @@ Proof.
 Qed.
 
 (* nothing more to read: an error *)
-Lemma no_reply_is_error ts : next_token ts = None -> reply_from_tokens ts = RReadError.
+Lemma no_reply_is_error ts : next_token ts = None -> reply_from_tokens ts = RCut.
 Proof.
   intros Ht. unfold reply_from_tokens, next_reply, next_packet. rewrite Ht. reflexivity.
 Qed.
